@@ -767,6 +767,17 @@ fn l1_floats(rng: &mut Rng, n: usize) -> (u64, Vec<String>) {
         check64(f64::from_bits(rng.next()), &mut bad);
         cnt += 1;
     }
+    // plist dates (within the years 0000..9999); base64 is validated by the file comparison
+    let mut g = G { rng: rng.fork(), wild: 0, nan: false };
+    for _ in 0..(n / 20).max(1000) {
+        let t = g.date();
+        let s = t.to_xml_format();
+        let back = plist::Date::from_xml_format(&s);
+        if back.ok() != Some(t) || s.is_empty() || s.chars().any(is_xml_ws) {
+            bad.push(format!("date text {:?}", s));
+        }
+        cnt += 1;
+    }
     bad.truncate(10);
     (cnt, bad)
 }
